@@ -81,8 +81,8 @@ def alphabet(cs, cls, reduced=False):
             continue
         if reduced and s not in ("volume", "area", "radius", "surface_area", "perimeter"):
             continue
-        for bad in ((-1.0,) if reduced else (-1.0, 0.0, float("nan"))):
-            if s == "radius" and cls.__name__.startswith("ConvexSphero") and bad == 0.0:
+        for bad in ((-1.0,) if reduced else (-1.0, 0.0, float("nan"), float("inf"))):
+            if s == "radius" and cls.__name__.startswith("ConvexSphero") and (bad == 0.0 or bad == float("inf")):
                 continue
             A.append(("abs", s, bad))
     return A
